@@ -23,7 +23,7 @@ const availMs = 2000
 
 type scen struct {
 	rt      string   // term-exits | term-ignored | exited | never-started
-	exts    []string // sub-exits | sub-ignores | sub-not-polling | unsub | exited | launch-fail
+	exts    []string // sub-exits | sub-ignores | sub-not-polling | sub-late-polling (busy when the teardown starts, then polls again and again) | unsub | exited | launch-fail
 	trigger string   // timeout | failure | explicit | shutdown
 	bound   int
 }
@@ -50,7 +50,7 @@ func (s scen) constructible() bool {
 		if e == "exited" {
 			extExited = true
 		}
-		if e == "sub-not-polling" {
+		if e == "sub-not-polling" || e == "sub-late-polling" {
 			notPolling = true
 		}
 	}
@@ -73,6 +73,11 @@ func (s scen) constructible() bool {
 				}
 			}
 			return false
+		}
+		for _, e := range s.exts {
+			if e == "sub-late-polling" && s.rt != "term-exits" && s.rt != "term-ignored" {
+				return false
+			}
 		}
 		return true
 	case "failure":
@@ -97,7 +102,7 @@ func (s scen) constructible() bool {
 // extHangs: in a timeout scenario the hanging party is the extension that does not poll, else the runtime
 func (s scen) extHangs() bool {
 	for _, e := range s.exts {
-		if e == "sub-not-polling" {
+		if e == "sub-not-polling" || e == "sub-late-polling" {
 			return true
 		}
 	}
@@ -165,6 +170,7 @@ func (s scen) config(rp **rec) *stack.Config {
 				x.Stall()
 			}
 			first := true
+			nShutdown := 0
 			for {
 				if x.Gen == 1 && kind == "sub-not-polling" && !first {
 					x.Stall()
@@ -173,10 +179,19 @@ func (s scen) config(rp **rec) *stack.Config {
 				if e.Status != 200 {
 					x.Stall()
 				}
+				if x.Gen == 1 && kind == "sub-late-polling" && first {
+					x.Sleep(3300 * time.Millisecond) // busy with the event until after the invocation has timed out
+				}
 				first = false
 				if stack.EventType(e) == "SHUTDOWN" {
 					if x.Gen == 1 && kind == "sub-ignores" {
 						x.Stall()
+					}
+					if x.Gen == 1 && kind == "sub-late-polling" {
+						if nShutdown++; nShutdown >= 3 {
+							x.Stall()
+						}
+						continue // ignores the event and polls again: no second event may come
 					}
 					x.Exit(0)
 				}
@@ -406,7 +421,7 @@ func (s scen) judge(e *sched.Exec) (string, string, *sched.Failure) {
 				failf("4", "unsub-kill-time", "unsubscribed extension %d: %d TERM, KILL at %d ms, expected KILL at %d ms", i, p.nTerm, ms(p.killAt), ms(agentsStart))
 			}
 			outs = append(outs, "ext:kill")
-		case "sub-exits", "sub-ignores", "sub-not-polling":
+		case "sub-exits", "sub-ignores", "sub-not-polling", "sub-late-polling":
 			if p == nil {
 				failf("3", "sub-missing", "extension %d has no process", i)
 				break
@@ -473,7 +488,7 @@ func init() {
 		if tier == "thorough" {
 			b = 1
 		}
-		extKinds := []string{"sub-exits", "sub-ignores", "sub-not-polling", "unsub", "exited", "launch-fail"}
+		extKinds := []string{"sub-exits", "sub-ignores", "sub-not-polling", "sub-late-polling", "unsub", "exited", "launch-fail"}
 		var extSets [][]string
 		extSets = append(extSets, nil)
 		for _, a := range extKinds {
